@@ -33,11 +33,14 @@ type c03Op struct {
 }
 
 type c03Case struct {
-	Ops     []c03Op
-	Decide  []int          // per marker id: 0 allow, 1 ban, 2 kill
-	Src     []int          // per marker id: decision for the *source* path of a rename (the destination uses Decide)
-	Other   map[string]int // decision per out-of-list syscall name (only consulted when Default == "trace")
-	Default string         // kill | trace
+	Ops    []c03Op
+	Decide []int          // per marker id: 0 allow, 1 ban, 2 kill
+	Src    []int          // per marker id: decision for the *source* path of a rename (the destination uses Decide)
+	Other  map[string]int // decision per out-of-list syscall name (only consulted when Default == "trace")
+	// decisions per *occurrence* of one plain syscall issued several times in a row at the start of the main task (the
+	// handler decides per call, not per syscall): name -> decision of the 1st, 2nd, ... call
+	Seq     map[string][]int `json:",omitempty"`
+	Default string           // kill | trace
 	BanRet  int
 	Exit    int
 }
@@ -63,6 +66,8 @@ func c03Sys(op c03Op) string {
 	}
 	return f[op.Form%len(f)]
 }
+
+var c03SeqNames = []string{"getpgrp", "getsid", "getpgid"}
 
 var c03Others = []string{"getuid", "getgid", "geteuid", "getegid", "sched_yield", "umask", "times", "alarm"}
 
@@ -123,6 +128,23 @@ func c03GenCase(rt *rapid.T) c03Case {
 		return ops
 	}
 	c.Ops = gen(0, rapid.IntRange(3, 12).Draw(rt, "n"), "t")
+	if c.Default == "trace" && rapid.IntRange(0, 2).Draw(rt, "seq") == 0 {
+		name := rapid.SampledFrom(c03SeqNames).Draw(rt, "seqname")
+		var ds []int
+		for k, n := 0, rapid.IntRange(2, 6).Draw(rt, "seqlen"); k < n; k++ {
+			d := rapid.SampledFrom([]int{0, 0, 0, 1, 1}).Draw(rt, "seqd")
+			if k == n-1 && rapid.IntRange(0, 3).Draw(rt, "seqkill") == 0 {
+				d = 2
+			}
+			ds = append(ds, d)
+		}
+		c.Seq = map[string][]int{name: ds}
+		var pre []c03Op
+		for k := range ds {
+			pre = append(pre, c03Op{Kind: "seq", Name: name, K: k})
+		}
+		c.Ops = append(pre, c.Ops...)
+	}
 	c.Src = make([]int, nextK)
 	for i := range c.Src {
 		c.Src[i] = rapid.SampledFrom([]int{0, 0, 1, 1, 2}).Draw(rt, "src")
@@ -168,6 +190,8 @@ func c03Run(c c03Case, root string, rec *vh.Recorder) error {
 			return c.Decide[op.K] == 2
 		case "other":
 			return c.Default == "kill" || c.Other[op.Name] == 2
+		case "seq":
+			return c.Default == "kill" || c.Seq[op.Name][op.K] == 2
 		}
 		return false
 	}
@@ -287,6 +311,12 @@ func c03Run(c c03Case, root string, rec *vh.Recorder) error {
 				} else {
 					f.idx = s.Sys(sysNr[op.Name])
 				}
+			case "seq":
+				if op.Name == "getpgrp" {
+					f.idx = s.Sys(sysNr[op.Name])
+				} else {
+					f.idx = s.Sys(sysNr[op.Name], 0)
+				}
 			case "wait":
 				f.idx = s.Add("wait")
 			case "sleep":
@@ -364,9 +394,17 @@ func c03Run(c c03Case, root string, rec *vh.Recorder) error {
 		}
 	}
 	h := &recHandler{}
+	seqSeen := map[string]int{}
 	h.Decide = func(r hRecord) ptracer.TraceAction {
 		d := 0
-		if r.Class == "syscall" {
+		if seq, ok := c.Seq[r.Arg]; ok && r.Class == "syscall" {
+			i := seqSeen[r.Arg]
+			seqSeen[r.Arg]++
+			if i >= len(seq) {
+				i = len(seq) - 1
+			}
+			d = seq[i]
+		} else if r.Class == "syscall" {
 			d = c.Other[r.Arg]
 		} else if m := c03MarkerRe.FindStringSubmatch(r.Arg); m != nil {
 			k, _ := strconv.Atoi(m[1])
@@ -413,6 +451,11 @@ func c03Run(c c03Case, root string, rec *vh.Recorder) error {
 				return 3, true // filter kill
 			}
 			return c.Other[f.op.Name], true
+		case "seq":
+			if c.Default == "kill" {
+				return 3, true
+			}
+			return c.Seq[f.op.Name][f.op.K], true
 		}
 		return 0, false
 	}
@@ -546,6 +589,22 @@ func c03Run(c c03Case, root string, rec *vh.Recorder) error {
 					return vh.Violf("C03:untraced-call-modified", "%s: getppid()=%d, parent is %d", desc(f), ret, mainPid)
 				}
 			}
+		case "seq":
+			if c.Default == "trace" && have && !after {
+				switch d {
+				case 0:
+					if ret < 0 && ret > -4096 {
+						return vh.Violf("C03:allowed-call-modified", "%s: allowed %s (call #%d of the same syscall) returned %d", desc(f), f.op.Name, f.op.K+1, ret)
+					}
+				case 1:
+					if ret != -int64(c.BanRet) {
+						return vh.Violf("C03:ban-wrong-return", "%s: %s call #%d was banned (earlier calls of the same syscall were decided %v) but returned %d, want %d", desc(f), f.op.Name, f.op.K+1, c.Seq[f.op.Name][:f.op.K], ret, -c.BanRet)
+					}
+				}
+				if recordedOther[f.op.Name] < f.op.K+1 && d != 2 {
+					return vh.Violf("C03:not-consulted", "%s: %s call #%d completed with %d but the handler was asked only %d times about that syscall", desc(f), f.op.Name, f.op.K+1, ret, recordedOther[f.op.Name])
+				}
+			}
 		case "other":
 			if c.Default == "trace" && have && !after {
 				switch d {
@@ -560,7 +619,7 @@ func c03Run(c c03Case, root string, rec *vh.Recorder) error {
 				}
 			}
 		}
-		if traced && d == 1 && have && !after && f.op.Kind != "other" {
+		if traced && d == 1 && have && !after && f.op.Kind != "other" && f.op.Kind != "seq" {
 			anyBan = true
 			if ret != -int64(c.BanRet) {
 				return vh.Violf("C03:ban-wrong-return", "%s: banned call returned %d, want %d", desc(f), ret, -c.BanRet)
@@ -572,7 +631,9 @@ func c03Run(c c03Case, root string, rec *vh.Recorder) error {
 		}
 		// every completed traced op was decided by the handler
 		if traced && have && !after && d != 3 {
-			if f.op.Kind == "other" {
+			if f.op.Kind == "seq" {
+				// checked above, per occurrence
+			} else if f.op.Kind == "other" {
 				if recordedOther[f.op.Name] == 0 {
 					return vh.Violf("C03:not-consulted", "%s completed with %d but the handler was never asked", desc(f), ret)
 				}
@@ -667,7 +728,7 @@ func c03Run(c c03Case, root string, rec *vh.Recorder) error {
 
 func TestC03Verdicts(t *testing.T) {
 	rec := vh.NewRecorder(t, "C03", "exploration",
-		"case = program tree (fork/vfork/thread blocks to depth 3, new tasks start with a traced call) of traced side-effecting calls on unique marker names (mkdirat, openat O_CREAT, unlinkat, renameat), traced read-only calls, untraced getpid/getppid and out-of-list syscalls (filter default kill or trace) x a decision function marker->{allow,ban,kill} x BanRet in {EACCES,EPERM,ENOENT,EROFS}; "+
+		"case = program tree (fork/vfork/thread blocks to depth 3, new tasks start with a traced call) of traced side-effecting calls on unique marker names (mkdirat, openat O_CREAT, unlinkat, renameat), traced read-only calls, untraced getpid/getppid and out-of-list syscalls (filter default kill or trace; one case in three starts with 2..6 calls of one plain syscall decided per occurrence, e.g. allow, allow, ban) x a decision function marker->{allow,ban,kill} x BanRet in {EACCES,EPERM,ENOENT,EROFS}; "+
 			"oracle = return values reported by the program, file-system effects after the run, handler log, Result.Status; non-trivial = (a ban and an allowed call with a side effect) or a kill or >=2 processes")
 	rec.Assume("the verdict when the filter or handler kills in a process main does not wait for is only required to be Disallowed Syscall or the program's own ending")
 	root, err := vh.ScratchDir("c03")
